@@ -344,40 +344,8 @@ Qed.
 Theorem solveZ_solver_optimal : solver_optimal solveZ.
 Proof. exact (solveZ_optimal munkres_partial_correct). Qed.
 
-(* ---------- termination: the scaled solver returns while n * D stays below sys.maxsize ---------- *)
-Lemma row_den_fold_least : forall row acc D, (acc | D)%Z -> (forall q, In q row -> (Zpos (Qden q) | D)%Z) ->
-  (fold_right (fun q a => Z.lcm (Zpos (Qden q)) a) acc row | D)%Z.
+(* ---------- termination: the scaled solver always returns (C06: munkres_terminates, no bound on the costs) ---------- *)
+Theorem solveZ_returns : forall n M, (1 <= n)%nat -> length M = n -> Forall (fun row => length row = n) M -> solveZ M <> None.
 Proof.
-  induction row as [|q row IH]; intros acc D Ha H; simpl; [exact Ha|].
-  apply Z.lcm_least; [apply H; left; reflexivity | apply IH; [exact Ha | intros q' Hq'; apply H; right; exact Hq']].
-Qed.
-
-Lemma common_den_least : forall M D, (forall row q, In row M -> In q row -> (Zpos (Qden q) | D)%Z) -> (common_den M | D)%Z.
-Proof.
-  induction M as [|row M IH]; intros D H; simpl; [apply Z.divide_1_l|].
-  apply row_den_fold_least.
-  - apply IH. intros r q Hr Hq. apply (H r q); [right; exact Hr | exact Hq].
-  - intros q Hq. apply (H row q); [left; reflexivity | exact Hq].
-Qed.
-
-Theorem solveZ_returns : forall n M D, (1 <= n)%nat -> length M = n -> Forall (fun row => length row = n) M ->
-  (forall row q, In row M -> In q row -> 0 <= q <= 1 /\ (Zpos (Qden q) | D)%Z) ->
-  (0 < D)%Z -> (Z.of_nat n * D < zmaxsize)%Z -> solveZ M <> None.
-Proof.
-  intros n M D Hn L F HE HD HB. unfold solveZ.
-  pose proof (common_den_pos M) as P.
-  assert (Dv : (common_den M | D)%Z) by (apply common_den_least; intros row q Hr Hq; apply (HE row q Hr Hq)).
-  pose proof (Z.divide_pos_le _ _ HD Dv) as LeD.
-  apply (munkres_terminates_bounded n n (scale_matrix M) (common_den M) Hn Hn (rect_scale n M L F)).
-  - intros i j Hi Hj. rewrite gz_scale.
-    assert (Hq : 0 <= qget M i j <= 1).
-    { unfold qget. assert (Hrow : In (nth i M []) M) by (apply nth_In; lia).
-      assert (Lr : length (nth i M []) = n) by (rewrite Forall_forall in F; apply F; exact Hrow).
-      apply (HE (nth i M []) (nth j (nth i M []) 0) Hrow). apply nth_In. lia. }
-    pose proof (scale_q_spec (common_den M) (qget M i j) P (qget_den_div M i j)) as E.
-    assert (P' : 0 < inject_Z (common_den M)) by (rewrite <- (Zlt_Qlt 0); exact P).
-    split.
-    + rewrite Zle_Qle, E. change (inject_Z 0) with 0. nra.
-    + rewrite Zle_Qle, E. nra.
-  - rewrite Nat.max_id. nia.
+  intros n M Hn L F. unfold solveZ. apply (munkres_terminates n n (scale_matrix M) Hn Hn (rect_scale n M L F)).
 Qed.
